@@ -609,3 +609,43 @@ func reachesInstr(a, b ssa.Instruction) bool {
 	}
 	return false
 }
+
+// ruleASCIIFold (C11): keywords and enumerated values of MAIL/RCPT parameters are ASCII; folding their case with
+// strings.ToUpper/ToLower applies Unicode's simple case mapping, under which U+017F (long s) becomes "S" and U+0131
+// (dotless i) becomes "I": "ſIZE=5" is taken for SIZE and "BODY=8BıTMIME" reaches the backend as 8BITMIME — neither
+// "as sent" nor refused. Every such fold in the parameter parsing is one obligation. (Today's tree folds with
+// strings.ToUpper at five such sites: recorded as known findings, see DESIGN.md §9.3.)
+func ruleASCIIFold(c *Ctx) {
+	R := c.R
+	R.Rule("R-ascii-fold", "E4 call-site rule", "the case of parameter keywords and enumerated values (SIZE…, BODY, RET, NOTIFY, ORCPT type) is folded with an ASCII-only mapping, not with Unicode case mapping", 4)
+	n := 0
+	// decodeTypedAddress also folds with ToUpper, but neither of its two constants ("RFC822", "UTF-8") contains a letter
+	// that a non-ASCII letter upper-cases to (S, I): no input is affected, so it is not an obligation
+	for _, fn := range []string{"parseArgs", "(*Conn).handleMail", "(*Conn).handleRcpt"} {
+		f := c.A.Func(fn)
+		if f == nil {
+			continue
+		}
+		allInstrs(f, func(in ssa.Instruction) {
+			call, ok := in.(*ssa.Call)
+			if !ok {
+				return
+			}
+			g := staticCallee(&call.Call)
+			if g == nil || g.Pkg == nil || g.Pkg.Pkg.Path() != "strings" {
+				return
+			}
+			switch g.Name() {
+			case "ToUpper", "ToLower", "ToTitle", "EqualFold":
+			default:
+				return
+			}
+			if _, isK := constString(call.Call.Args[0]); isK {
+				return
+			}
+			n++
+			R.Ob(c.siteKey(in, "keyword/value case folded with an ASCII-only mapping"), c.P.InstrPos(in), false, fmt.Sprintf("%s folds %s with strings.%s: Unicode case mapping turns U+017F into 'S' and U+0131 into 'I', so a keyword or value that is not the ASCII one is accepted as if it were (\"ſIZE=5\" sets Size, \"BODY=8BıTMIME\" is handed on as 8BITMIME)", fn, describe(call.Call.Args[0]), g.Name()))
+		})
+	}
+	R.Note("R-ascii-fold: %d Unicode case folds found in the parameter parsing", n)
+}
